@@ -230,6 +230,27 @@ func TestVerifC11NotifyList(t *testing.T) {
 				}
 			}
 		}
+		// lower bound, from the history alone, on the number of tickets that must have been released: a NotifyOne that
+		// started after k Adds had returned releases the oldest unreleased ticket if one of those k is unreleased; a
+		// NotifyAll releases all of them.  (The implementation's own counters are not consulted.)
+		mustReleased, addsDone := 0, 0
+		startAdds := map[int]int{}
+		for _, e := range events {
+			switch {
+			case e.Kind == "add" && !e.Start:
+				addsDone++
+			case (e.Kind == "one" || e.Kind == "all") && e.Start:
+				startAdds[e.Thread] = addsDone
+			case e.Kind == "one" && !e.Start:
+				if startAdds[e.Thread] > mustReleased {
+					mustReleased++
+				}
+			case e.Kind == "all" && !e.Start:
+				if startAdds[e.Thread] > mustReleased {
+					mustReleased = startAdds[e.Thread]
+				}
+			}
+		}
 		waiters := 0
 		if key == "" && s.Violation == "" {
 			for _, th := range s.Threads() {
@@ -242,6 +263,10 @@ func TestVerifC11NotifyList(t *testing.T) {
 					break
 				}
 				waiters++
+				if int(tk) < mustReleased {
+					key, msg = "C11:notify:lost-wakeup", fmt.Sprintf("no thread can run, thread %d is blocked in Wait(ticket %d) although the Signal/Broadcast calls that completed after the ticket was taken must have released tickets 0..%d", th.ID, tk, mustReleased-1)
+					break
+				}
 				if int32(l.notify-tk) > 0 {
 					key, msg = "C11:notify:lost-wakeup", fmt.Sprintf("no thread can run, thread %d is blocked in Wait(ticket %d) although notify=%d already covers it (wait=%d)", th.ID, tk, l.notify, l.wait)
 					break
